@@ -758,7 +758,7 @@ pub const CHUNK_PRODUCT: [(usize, &[&str]); 13] = [
     (S_VCOLORS, &["off", "on"]),
     (S_VLIGHT, &["off", "on"]),
     (S_LAYERS, &["none", "one", "four", "empty"]),
-    (S_ALPHA, &["none", "u2048", "mixed", "odd3"]),
+    (S_ALPHA, &["none", "mixed", "odd3"]),
     (S_SOUND, &["none", "three"]),
     (S_LIQUID, &["none", "water", "slime"]),
     (S_REFS, &["none", "doodad_only", "doodad_and_wmo", "wmo_only"]),
